@@ -27,3 +27,6 @@ def build(run):
     outputasync.verify_ctrl_start(run)
     outputasync.verify_ctrl_cancel(run)
     run.replayer('Circuit._run_tasks/raises:cancelled_while_waiting/post2', lambda run_, ob, model: open('/verif/specs/replay_c08a.py').read())
+    run.unclaim("AddonAsync.__init__ (init_timeout / stop_timeout: given value, else the default; an explicit None means the default) is not under "
+                "contract: the timeouts are typed fields (reals) in the model, so 'a block whose stop_timeout is None' cannot be expressed; "
+                "_stop_sblocks and _init_sblocks_async take numeric timeouts as given")
